@@ -166,31 +166,44 @@ def rzGuard {υ : Type} (c : RzCfg) (h : Hooks υ) (st : RzSt υ) (bankChanged :
   if bankChanged then { st with m := m1, next := next, spos := positions }
   else { st with m := m1, next := next, spos := positions, comb := rzGuardComb c.guardEarly p1.comb p1.created p1.retired }
 
-/-- `rebuild_structure` -/
-def rzRebuild {υ : Type} (c : RzCfg) (h : Hooks υ) (I : RzIn) (st : RzSt υ) : RzSt υ × Option String :=
-  let live := I.live
-  let capacity := max (max st.cap (if c.hasZero then 2 else 0)) (if live > 0 then bitCeil live else 0)
-  let bankChanged := capacity != st.cap
-  let nb := if bankChanged then 1 - st.bank else st.bank
-  if bankChanged && rzBankOccupied st.m nb then (st, some "logic:bank-occupied") else
-  let size1 := if bankChanged then (if capacity > 1 then capacity - 1 else 0) else st.size
-  let comb1 : Nat → Bool := if bankChanged then (fun _ => false) else st.comb
-  let positions := if I.full || bankChanged then allPositionsDesc size1 else structuralPositions capacity size1 I.structLeaves
-  let p1 := rzPhase1 c.hasZero nb capacity live size1 positions { m := st.m, comb := comb1 }
+/-- `rebuild_structure` once the capacity is decided: `bankChanged` (the tree is built in bank `nb`, in an empty table of
+    `size1` pointers), or a same-capacity rebuild in the current table (`nb = st.bank`, `size1 = st.size`, `comb1 = st.comb`) -/
+def rzRebuildIn {υ : Type} (c : RzCfg) (h : Hooks υ) (I : RzIn) (st : RzSt υ) (bankChanged : Bool) (nb capacity size1 : Nat)
+    (comb1 : Nat → Bool) (positions : List Nat) : RzSt υ × Option String :=
+  -- the guard is armed; phase 1
+  let p1 := rzPhase1 c.hasZero nb capacity I.live size1 positions { m := st.m, comb := comb1 }
   match p1.2 with
   | some x => (rzGuard c h st bankChanged nb positions p1.1 p1.1.m st.next, some x)
   | none =>
+    -- phase 2
     if I.bindThrows then (rzGuard c h st bankChanged nb positions p1.1 p1.1.m st.next, some "bind") else
     let s2 := rzStartList c.base h nb p1.1.created.reverse (p1.1.m, st.next)
     match s2.2 with
     | some x => (rzGuard c h st bankChanged nb positions p1.1 s2.1.1 s2.1.2, some x)
     | none =>
       if I.publishThrows then (rzGuard c h st bankChanged nb positions p1.1 s2.1.1 s2.1.2, some "publish") else
+      -- phase 3
       let retiredSlots := p1.1.retired.reverse.map (rzSlot nb)
       let shapeSlots := if bankChanged then (rzLive st.size st.comb).map (rzSlot st.bank) else []
       let m3 := rzStopFold c.base h shapeSlots (rzStopFold c.base h retiredSlots s2.1.1)
       ({ m := m3, comb := p1.1.comb, size := size1, cap := capacity, bank := nb,
          prev := st.prev ++ retiredSlots ++ shapeSlots, spos := positions, published := true, next := s2.1.2 }, none)
+
+/-- `leaf_capacity` after the rebuild -/
+def rzCapacity (hasZero : Bool) (cap live : Nat) : Nat :=
+  max (max cap (if hasZero then 2 else 0)) (if live > 0 then bitCeil live else 0)
+
+/-- `rebuild_structure` -/
+def rzRebuild {υ : Type} (c : RzCfg) (h : Hooks υ) (I : RzIn) (st : RzSt υ) : RzSt υ × Option String :=
+  let capacity := rzCapacity c.hasZero st.cap I.live
+  if capacity != st.cap then
+    -- capacity growth: the replacement is built in the inactive bank
+    if rzBankOccupied st.m (1 - st.bank) then (st, some "logic:bank-occupied") else
+    let size1 := if capacity > 1 then capacity - 1 else 0
+    rzRebuildIn c h I st true (1 - st.bank) capacity size1 (fun _ => false) (allPositionsDesc size1)
+  else
+    rzRebuildIn c h I st false st.bank capacity st.size st.comb
+      (if I.full then allPositionsDesc st.size else structuralPositions capacity st.size I.structLeaves)
 
 /-- `prepare_reduce_evaluation_positions` (no full scan) -/
 def rzCandidates {υ : Type} (st : RzSt υ) (rebuilt : Bool) (I : RzIn) : List Nat :=
